@@ -117,7 +117,7 @@ func mpScenario(cr *childRun, sid int) {
 	txLimit := blockSize * 2
 	maxSeen := 0
 	var earlier []types.Tx
-	nIn := lib.Pick(160, 500)
+	nIn := lib.Pick(120, 500)
 	for k := 0; k < nIn; k++ {
 		if !ensure() {
 			break
@@ -142,15 +142,19 @@ func mpScenario(cr *childRun, sid int) {
 				kind, b = "empty-tx", encTx(types.Tx{})
 			}
 		case 5:
-			kind, b = "tx-100k", encTx(bytes.Repeat([]byte{byte(k)}, 100000))
-		case 6:
 			if rng.Intn(4) == 0 {
+				kind, b = "tx-100k", encTx(bytes.Repeat([]byte{byte(k)}, 100000))
+			} else {
+				kind, b = "tx-with-high-bytes", encTx(types.Tx(fmt.Sprintf("\xff\xfe\x80-%d", k)))
+			}
+		case 6:
+			if rng.Intn(10) == 0 {
 				kind, b = "tx-just-under-1MB", encTx(bytes.Repeat([]byte{byte(k)}, 1048576-16))
 			} else {
 				kind, b = "tx-with-newlines-and-nul", encTx(types.Tx(fmt.Sprintf("a\nb\x00c\r\n%d", k)))
 			}
 		case 7:
-			if rng.Intn(4) == 0 {
+			if rng.Intn(10) == 0 {
 				kind, b = "tx-over-1MB-limit", encTx(bytes.Repeat([]byte{byte(k)}, 1048576+4096))
 			} else {
 				kind, b = "tx-length-prefix-absurd", append([]byte{0x01, 0x08, 0x7f, 0xff, 0xff, 0xff, 0xff, 0xff, 0xff, 0xff}, []byte("short")...)
@@ -207,7 +211,6 @@ func mpScenario(cr *childRun, sid int) {
 	if sz := pool.Size(); sz > maxSeen {
 		maxSeen = sz
 	}
-	cr.run.Count("mp_max_pool_size_seen", 0)
 	if limits {
 		cr.run.Count("mp_scenarios_with_limit", 1)
 		if maxSeen > txLimit+1+2 {
@@ -288,7 +291,7 @@ func containsTx(txs []types.Tx, tx types.Tx) bool {
 func mpFamily() *family {
 	return &family{
 		name:     "mp",
-		children: 2,
+		children: 3,
 		total:    func() int { return lib.Pick(12, 240) },
 		run:      mpScenario,
 		watchdog: func(n int) time.Duration { return time.Duration(120+n*40) * time.Second },
@@ -296,7 +299,7 @@ func mpFamily() *family {
 		after: func(run *lib.Run, total int) {
 			run.Require("mp_hostile_inputs", int64(total*100))
 			run.Require("mp_controls_passed", int64(total*8/10))
-			run.Require("mp_input_kinds", 14)
+			run.Require("mp_input_kinds", 13)
 		},
 	}
 }
